@@ -52,6 +52,21 @@ def iter_next(interp, st, it, back=False):
         return Opaque("enumerate", (inner, usize(c.val + 1))), Agg("tuple", None, 0, (c, item))
     if k == "zip":
         if back:
+            # DoubleEndedIterator for Zip needs ExactSize halves: equal remaining lengths here
+            xa, xb = it.data
+            if all(isinstance(x_, Opaque) and x_.kind == "slice_iter" for x_ in (xa, xb)):
+                na, nb = xa.data[2].val - xa.data[1].val, xb.data[2].val - xb.data[1].val
+                while na > nb:
+                    xa, _ = iter_next(interp, st, xa, True)
+                    na -= 1
+                while nb > na:
+                    xb, _ = iter_next(interp, st, xb, True)
+                    nb -= 1
+                a2, x = iter_next(interp, st, xa, True)
+                if x is None:
+                    return Opaque("zip", (a2, xb)), None
+                b2, y = iter_next(interp, st, xb, True)
+                return Opaque("zip", (a2, b2)), Agg("tuple", None, 0, (x, y))
             raise Undecided("zip next_back")
         a, x = iter_next(interp, st, it.data[0])
         if x is None:
@@ -524,6 +539,8 @@ def iterator_cmp(i, fr, st, pc, a, t, fn, r):
     if all(isinstance(v, W) and v.val is not None for v in la + lb):
         ka, kb = [v.val for v in la], [v.val for v in lb]
         return _ret(i, st, pc, ordering((ka > kb) - (ka < kb)))
+    if getattr(i, "cmp_split", False) and all(isinstance(v, W) for v in la + lb):
+        return _lex_split(i, fr, st, pc, la, lb, t)
     return _ret(i, st, pc, Opaque("lexcmp", (tuple(la), tuple(lb))))
 
 
@@ -861,7 +878,11 @@ def _compare(i, fr, st, pc, x, y, t):
             xs, ys = (x.sval(), y.sval()) if x.signed else (x.val, y.val)
             return [(st, pc, (xs > ys) - (xs < ys))], []
         if x.signed:
-            raise Undecided("order of symbolic signed keys")
+            # two's complement order = unsigned order after flipping the sign bits
+            def bias(v_):
+                bs = v_.all_bits()
+                return W(v_.width, bits=bs[:-1] + [B.bnot(bs[-1])])
+            x, y = bias(x), bias(y)
         lt, eq = i.binop("Lt", x, y, fr), w_eq(x, y)
         for cond, r_ in (((lt,), -1), ((b_not(lt), eq), 0), ((b_not(lt), b_not(eq)), 1)):
             if any(isinstance(c, W) and c.val == 0 for c in cond):
@@ -1603,6 +1624,9 @@ def seq_cmp(partial):
             ka, kb = [v.val for v in la], [v.val for v in lb]
             res = ordering((ka > kb) - (ka < kb))
         elif all(isinstance(v, W) for v in la + lb):
+            if getattr(i, "cmp_split", False):
+                return [Outcome(o.kind, o.state, o.pc, some(o.value) if (partial and o.kind == "return") else o.value, getattr(o, "info", None)) if o.kind == "return" else o
+                        for o in _lex_split(i, fr, st, pc, la, lb, t)]
             res = Opaque("lexcmp", (tuple(la), tuple(lb)))
         else:
             raise Undecided("comparison of non-integer sequences")
@@ -3861,6 +3885,49 @@ TABLE.update({
     "std::array::<impl std::ops::Index<I> for [T; N]>::index": array_index_range,
     "core::slice::<impl [T]>::swap_with_slice": slice_swap_with_slice,
 })
+
+
+def _lex_split(i, fr, st, pc, la, lb, t):
+    """window mode: the lexicographic comparison of two word sequences as paths with exact conditions"""
+    outs = []
+    work = [(st, pc, 0)]
+    while work:
+        s, p, k = work.pop()
+        if k >= len(la) or k >= len(lb):
+            c = (len(la) > len(lb)) - (len(la) < len(lb))
+            outs.append(Outcome("return", s, p, ordering(c)))
+            continue
+        res, other = _compare(i, fr, s, p, la[k], lb[k], t)
+        outs += other
+        for s2, p2, c in res:
+            if c == 0:
+                work.append((s2, p2, k + 1))
+            else:
+                outs.append(Outcome("return", s2, p2, ordering(c)))
+    return outs
+
+
+def ord_cmp_signed(i, fr, st, pc, a, t, fn, r):
+    x, y = i.read_ptr(st, a[0]), i.read_ptr(st, a[1])
+    if isinstance(x, W) and isinstance(y, W) and x.val is not None and y.val is not None:
+        xs, ys = x.sval(), y.sval()
+        return _ret(i, st, pc, ordering((xs > ys) - (xs < ys)))
+    if not getattr(i, "cmp_split", False):
+        raise Undecided("order of symbolic signed integers")
+    xs = W(x.width, val=x.val, signed=True) if x.val is not None else W(x.width, bits=x.all_bits(), signed=True)
+    ys = W(y.width, val=y.val, signed=True) if y.val is not None else W(y.width, bits=y.all_bits(), signed=True)
+    if xs.val is not None:
+        xs = W(x.width, bits=xs.all_bits(), signed=True)
+    if ys.val is not None:
+        ys = W(y.width, bits=ys.all_bits(), signed=True)
+    res, other = _compare(i, fr, st, pc, xs, ys, t)
+    return list(other) + [Outcome("return", s2, p2, ordering(c)) for s2, p2, c in res]
+
+
+for _w in ("i8", "i16", "i32", "i64", "i128", "isize"):
+    TABLE["std::cmp::impls::<impl std::cmp::Ord for %s>::cmp" % _w] = ord_cmp_signed
+for _w in ("u8", "u16", "u128"):
+    TABLE["std::cmp::impls::<impl std::cmp::Ord for %s>::cmp" % _w] = ord_cmp_int
 
 
 def _int_dispatch(path):
